@@ -80,11 +80,22 @@ class HarnessAbort(BaseException):
 
 
 class ListStrategy:
-    """Generated schedule: see module docstring."""
+    """Generated schedule: see module docstring.
 
-    def __init__(self, pre=(), forced=()):
+    Optional directed part: ``hot`` = list of ``[nth, pick]`` and ``hot_pred(tag) -> bool``:
+    additionally preempt at the nth (0-based) preemption opportunity whose yield tag
+    satisfies ``hot_pred`` (e.g. "a line inside OrPipe.set") - same semantics as an entry
+    of ``pre`` but counted in the marked region only, so that few generated integers reach
+    the interesting windows."""
+
+    def __init__(self, pre=(), forced=(), hot=(), hot_pred=None):
         self.pre = [(int(g), int(p)) for g, p in pre]
         self.forced = [int(p) for p in forced]
+        self.hot = {}
+        for n, p in hot:
+            self.hot.setdefault(int(n), int(p))
+        self.hot_pred = hot_pred if self.hot else None
+        self._hot_seen = 0
         self._pi = 0
         self._fi = 0
         self._gap = self.pre[0][0] if self.pre else None
@@ -96,6 +107,12 @@ class ListStrategy:
                 self._fi += 1
                 return p % len(options)
             return 0
+        if self.hot_pred is not None and self.hot_pred(sched.cur_tag):
+            n = self._hot_seen
+            self._hot_seen += 1
+            if n in self.hot:
+                others = [i for i in range(len(options)) if i != cur_idx]
+                return others[self.hot[n] % len(others)]
         if self._gap is None:
             return cur_idx
         if self._gap > 0:
@@ -171,23 +188,25 @@ def enumerate_schedules(run_one, k, limit=None):
     return True
 
 
-def schedule_strategy(max_pre=3, max_gap=60, max_forced=10, width=8):
-    """hypothesis strategy for the JSON-able schedule {"pre": [[gap, pick]..], "forced": [..]}."""
+def schedule_strategy(max_pre=3, max_gap=60, max_forced=10, width=8, max_hot=0, hot_range=12):
+    """hypothesis strategy for the JSON-able schedule {"pre": [[gap, pick]..], "forced": [..]}
+    (plus "hot": [[nth, pick]..] when max_hot > 0)."""
     from hypothesis import strategies as st
 
-    return st.fixed_dictionaries(
-        {
-            "pre": st.lists(st.tuples(st.integers(0, max_gap), st.integers(0, width - 1)), max_size=max_pre),
-            "forced": st.lists(st.integers(0, width - 1), max_size=max_forced),
-        }
-    )
+    d = {
+        "pre": st.lists(st.tuples(st.integers(0, max_gap), st.integers(0, width - 1)), max_size=max_pre),
+        "forced": st.lists(st.integers(0, width - 1), max_size=max_forced),
+    }
+    if max_hot:
+        d["hot"] = st.lists(st.tuples(st.integers(0, hot_range), st.integers(0, width - 1)), max_size=max_hot)
+    return st.fixed_dictionaries(d)
 
 
-def strategy_from_case(s):
-    """Schedule as stored in a case: {"pre","forced"} or {"dfs": prefix}."""
+def strategy_from_case(s, hot_pred=None):
+    """Schedule as stored in a case: {"pre","forced"[,"hot"]} or {"dfs": prefix}."""
     if "dfs" in s:
         return DFSStrategy(s["dfs"])
-    return ListStrategy(s.get("pre", ()), s.get("forced", ()))
+    return ListStrategy(s.get("pre", ()), s.get("forced", ()), s.get("hot", ()), hot_pred)
 
 
 # ----------------------------------------------------------------------------- tasks
@@ -287,6 +306,7 @@ class Scheduler:
         self.tasks = []
         self._by_ident = {}
         self.current = None
+        self.cur_tag = None  # tag of the yield point being decided (for strategies)
         self.now = 0.0
         self.log = []
         self.res = Result()
@@ -471,6 +491,7 @@ class Scheduler:
             if cur_idx is not None:
                 res.preempt_points += 1
             res.decisions += 1
+            self.cur_tag = tag
             i = self.strategy.decide(self, cur_idx, opts)
         t, kind = opts[i]
         if kind == "timeout":
